@@ -413,6 +413,17 @@ ALIAS_DUP = {
 }
 
 
+# type names that start with a non-ASCII upper-case letter: the derived variable names must stay identifiers (repaired)
+UNICODE_TYPES = {
+    "k.go": 'package main\n\nimport "github.com/mazrean/kessoku"\n\ntype \u00c9clair struct{ S string }\ntype \u00c0B struct{ E *\u00c9clair }\n\nfunc New\u00c9clair() (*\u00c9clair, error) { return &\u00c9clair{S: "e"}, nil }\nfunc New\u00c0B(e *\u00c9clair) *\u00c0B          { return &\u00c0B{E: e} }\n\nvar _ = kessoku.Inject[*\u00c0B]("Init\u00c0B", kessoku.Provide(New\u00c9clair), kessoku.Provide(New\u00c0B))\n\nfunc main() {\n\tv, err := Init\u00c0B()\n\tif err != nil || v.E.S != "e" {\n\t\tpanic("wrong result")\n\t}\n}\n',
+}
+# instances of generic ALIASES in spelled positions (var block, parameters), with package-qualified type arguments (repaired)
+GENERIC_ALIAS = {
+    "dsl/d.go": 'package dsl\n\nconst N = 3\n\ntype Thing struct{ V int }\n',
+    "k.go": 'package main\n\nimport (\n\t"context"\n\n\t"github.com/mazrean/kessoku"\n\t"vscratch/generic_alias/dsl"\n)\n\ntype B[T any] = []T\ntype P[K comparable, V any] = map[K]V\n\nfunc NewB() B[dsl.Thing]          { return B[dsl.Thing]{{V: 1}} }\nfunc NewP() P[string, *dsl.Thing] { return nil }\n\ntype Out struct{ N int }\n\nfunc NewOut(b B[dsl.Thing], p P[string, *dsl.Thing], q B[int]) (*Out, error) { return &Out{N: len(b)}, nil }\n\nvar _ = kessoku.Inject[*Out]("InitOut", kessoku.Async(kessoku.Provide(NewB)), kessoku.Async(kessoku.Provide(NewP)), kessoku.Provide(NewOut))\n\n// the requested type mentions another package outside a type name: the constant of an array length\nfunc NewArr() [dsl.N]int { return [dsl.N]int{1, 2, 3} }\n\nvar _ = kessoku.Inject[[dsl.N]int]("InitArr", kessoku.Provide(NewArr))\n\nfunc main() {\n\to, err := InitOut(context.Background(), nil)\n\tif err != nil || o.N != 1 || InitArr()[2] != 3 {\n\t\tpanic("wrong result")\n\t}\n}\n',
+}
+
+
 def write_pkg(mod, name, files):
     d = os.path.join(mod, name)
     os.makedirs(d, exist_ok=True)
@@ -480,6 +491,8 @@ def _stage(seed, tier, key="N-x"):
     pkgs.append(("bad_names", BAD_NAMES, ["k.go"], None, dict(kind="declared injector names that are not identifiers", run=True)))
     pkgs.append(("alias_keys", ALIAS_KEYS, ["k.go"], None, dict(kind="alias-spelled requirements", run=True, expect_params={"k_band.go": {"InitB": ["Str", "any"]}})))
     pkgs.append(("alias_dup", ALIAS_DUP, ["k.go"], None, dict(kind="two suppliers of one type, one spelled through an alias", expect_refused="multiple providers")))
+    pkgs.append(("unicode_types", UNICODE_TYPES, ["k.go"], None, dict(kind="naming: type names starting with a non-ASCII upper-case letter", run=True)))
+    pkgs.append(("generic_alias", GENERIC_ALIAS, ["k.go"], None, dict(kind="types: instances of generic aliases, a qualified constant in the requested type", run=True)))
     pkgs.append(("xset", XSET, ["k.go"], "KF-C10-1", dict(kind="known finding reproducer (Set of another package)", signature="no vet signature: the file compiles",
                                                        expect_params={"k_band.go": {"InitB": []}}, known_params={"k_band.go": {"InitB": ["*prov.A"]}})))
     for kid, (body, sig) in KNOWN.items():
@@ -507,7 +520,7 @@ def _stage(seed, tier, key="N-x"):
                 rec["run_err"] = (o3 + e3)[-600:]
                 if rc3:
                     break
-        band = {t[:-3] + "_band.go": open(os.path.join(d, t[:-3] + "_band.go")).read() for t in targets if os.path.exists(os.path.join(d, t[:-3] + "_band.go"))}
+        band = {t[:-3] + "_band.go": open(os.path.join(d, t[:-3] + "_band.go"), errors="replace").read() for t in targets if os.path.exists(os.path.join(d, t[:-3] + "_band.go"))}
         rec["band"] = {k: v[:6000] for k, v in band.items()}
         return rec
     with ThreadPoolExecutor(max_workers=10) as ex:
